@@ -61,6 +61,12 @@ func storeRepoNames(w *h.World) []string {
 	return out
 }
 
+// c15IndexArtifact is an index without children, artifactType and annotations whose subject is I1.
+func c15IndexArtifact(f *Fix) []byte {
+	sub := refDesc(f.Items["I1"])
+	return h.Index(mtIdx, nil, &sub, "", nil)
+}
+
 func c15Grammar(f *Fix, tier string, sessPath, sessID string) []c15Req {
 	var out []c15Req
 	methods := []string{"GET", "HEAD", "POST", "PUT", "PATCH", "DELETE", "OPTIONS", "FOO"}
@@ -84,11 +90,16 @@ func c15Grammar(f *Fix, tier string, sessPath, sessID string) []c15Req {
 	}
 	// manifests
 	refs := []nm{{"tag", "t"}, {"unknown-tag", "nope"}, {"digest", i1.Dig}, {"unknown-digest", unknownDig}, {"malformed-digest", "sha256:xyz"}, {"unsupported-alg", "md5:d41d8cd98f00b204e9800998ecf8427e"},
-		{"129-chars", strings.Repeat("t", 129)}, {"dot-dot", ".."}, {"bad-char", "a!b"}, {"sha512", h.Dig("sha512", i1.Data)}}
+		{"129-chars", strings.Repeat("t", 129)}, {"dot-dot", ".."}, {"bad-char", "a!b"}, {"sha512", h.Dig("sha512", i1.Data)},
+		// stored referrers of I1 by digest: an image artifact, and an index that carries a subject but neither an artifactType nor a config
+		{"artifact-digest", f.Items["A1"].Dig}, {"index-artifact-digest", h.Dig("sha256", c15IndexArtifact(f))}}
 	for _, m := range methods {
 		for _, n := range names {
 			for _, r := range refs {
 				if n.label != "existing" && n.label != "unknown" && r.label != "tag" && r.label != "digest" {
+					continue
+				}
+				if strings.HasSuffix(r.label, "artifact-digest") && n.label != "existing" {
 					continue
 				}
 				var body []byte
@@ -259,6 +270,8 @@ func c15Specs(tier string) []*h.SeqSpec {
 		mustStatus(w.PutManifest("r", "t", mtImg, f.Items["I1"].Data), 201)
 		mustStatus(w.PutManifest("r", f.Items["A1"].Dig, mtImg, f.Items["A1"].Data), 201)
 		mustStatus(w.PutManifest("r", f.Items["A2"].Dig, mtImg, f.Items["A2"].Data), 201)
+		xa := c15IndexArtifact(f)
+		mustStatus(w.PutManifest("r", h.Dig("sha256", xa), mtIdx, xa), 201)
 	}
 	sessions := func(w *h.World) {
 		populate(w)
